@@ -11,9 +11,14 @@ l.textref  : C04 at TEXT level.  The harness generates STRUCTURED modifiers (any
 l.c09mixed : C09, the relation written from the property text (`disablesText`): sequences mixing rcode-only /
              CNAME / record rewrites and exceptions (the edge `[NOERROR rewrite, CNAME exception]` of the review),
              real DNSResult.DNSRewrites() vs model vs text-level reference (c09_text, c09_disablesText_eq).
+l.c08order : C08, the value-ORDER behaviour of the twin relation (Go-side asserts, expected answers per the lemmas
+             c08_order_*): near-twins whose list-valued modifier has its values permuted are negated iff the parser
+             sorts that modifier ($ctag, $client) and not for $domain / $denyallow / $dnstype; through
+             VerifNegatesBadfilter and real engines.
 """
 
 PROPS = {
     "C04": {"families": [fam("l.textref", 1500, 30000, seeds=4)]},
+    "C08": {"families": [fam("l.c08order", 300, 5000, seeds=4)]},
     "C09": {"families": [fam("l.c09mixed", 400, 8000, seeds=4)]},
 }
